@@ -258,6 +258,8 @@ pub fn gen(rng: &mut Rng, focus: SFocus) -> ServerScn {
     let small = [1usize, 2, 3];
     let resp_buf = if rng.chance(600) { *rng.pick(&small) } else { 100 };
     let limit = match focus {
+        // "no limit" spelled as the largest number there is, and its neighbours in signed terms
+        SFocus::Limit if rng.chance(40) => Some(*rng.pick(&[usize::MAX, usize::MAX - 1, isize::MAX as usize + 1, isize::MAX as usize])),
         SFocus::Limit => Some(*rng.pick(&[0usize, 1, 1, 2, 2, 3])),
         SFocus::Dups => None,
         _ => {
@@ -462,7 +464,7 @@ pub fn gen(rng: &mut Rng, focus: SFocus) -> ServerScn {
         },
         pre_read: 0,
         chain: match limit {
-            Some(l) if rng.chance(if focus == SFocus::Limit { 200 } else { 60 }) => Some((l + rng.range(1, 3) as usize, rng.chance(500))),
+            Some(l) if rng.chance(if focus == SFocus::Limit { 200 } else { 60 }) => Some((l.saturating_add(rng.range(1, 3) as usize), rng.chance(500))),
             _ => None,
         },
         via_listener: limit.is_some() && rng.chance(150),
